@@ -269,15 +269,20 @@ where
         Ok(e) => {
             let (root, rel) = e.root_relative_paths();
             let mc = e.matched_cand();
-            Item::Ok {
-                path: ctx.norm(e.path()),
-                root: ctx.norm(root),
-                rel: ctx.norm(rel),
-                depth: e.depth(),
-                ft: ft_char(e.file_type()),
+            let path_text = ctx.norm(e.path());
+            let (root, rel, depth, ft) = (ctx.norm(root), ctx.norm(rel), e.depth(), ft_char(e.file_type()));
+            // `into_path` must give the same path as `path` (reported in `path` itself if not)
+            let into = ctx.norm(&e.into_path());
+            let path_text = if into == path_text { path_text } else { format!("{} <into_path: {}>", path_text, into) };
+            return Item::Ok {
+                path: path_text,
+                root,
+                rel,
+                depth,
+                ft,
                 matched: mc.as_ref().map(|m| norm_text(&m.0, &ctx.root_text)),
                 cand: mc.map(|m| norm_text(&m.1, &ctx.root_text)),
-            }
+            };
         },
         Err(error) => record_err(&ctx, error),
     }))
